@@ -49,6 +49,12 @@ func schedFaultScenarios(action string) []faultScenario {
 		{"F15:a/one shard fails late/delays", `a`, 4, 12, []mstore.Fault{f("next", 2, 3)}, 2},
 		{"F16:sum by (l)(a)/failure in the 2nd batch/delays", `sum by (l) (a)`, 2, 12, []mstore.Fault{f("next", 1, 11)}, 2},
 		{"F17:a+b/left fails in the 2nd batch/delays", `a + on (l) group_left b`, 2, 12, []mstore.Fault{f("next", 1, 11)}, 1},
+		// operands that load their series lazily (ungrouped aggregations), one of them failing in
+		// Select, with a yield point in every storage callback: no operand may still be inside
+		// the storage when Exec returns
+		{"F18:sum(a)+sum(b)/select of b fails/store yields", `sum(a) + sum(b)`, 2, 2, []mstore.Fault{{Kind: "select", Sel: `{__name__="b"}@-290000,40000`, Series: -1, Nth: 0, Action: action}}, 2},
+		{"F19:sum(a)+sum(b)/select of a fails/store yields", `sum(a) + sum(b)`, 2, 2, []mstore.Fault{{Kind: "select", Sel: `{__name__="a"}@-290000,40000`, Series: -1, Nth: 0, Action: action}}, 2},
+		{"F20:max(a)-min(b)/iterator of b fails/store yields", `max(a) - min(b)`, 2, 2, []mstore.Fault{f("iterator", 3, 0)}, 1},
 	}
 }
 
@@ -61,7 +67,7 @@ func runFaultSched(c *check.Ctx, prop, action string, events []string, oracle fu
 		if !c.Thorough() && d > 1 && (len(events) > 0) {
 			d = 1
 		}
-		s := schedScenario{Scenario: explore.Scenario{Name: fs.name + "/" + action, Case: cs, Delay: strings.HasSuffix(fs.name, "/delays")}, DQuick: d, DThorough: fs.d}
+		s := schedScenario{Scenario: explore.Scenario{Name: fs.name + "/" + action, Case: cs, Delay: strings.HasSuffix(fs.name, "/delays"), StoreYield: strings.HasSuffix(fs.name, "/store yields")}, DQuick: d, DThorough: fs.d}
 		runSchedAllowFailingRoot(c, &s, prop, events, oracle)
 		c.Rep.Extra["sched_faults_fired"] += fired
 		c.Rep.Extra["sched_faults_not_reached"] += notFired
